@@ -17,6 +17,8 @@ def poly_obs(m, active):
     rows = [[int(x) for x in r] for r in np.asarray(ph).tolist()]
     return cols, rows
 
+@guarded(lambda e, res, ast, m, *a, **k: {"op": "encode", "model": ast_json(ast), "active": True, "env": {},
+                                           "problem": f"to_ge_polyhedron / evaluate raised {type(e).__name__}: {str(e)[:160]}"})
 def oracle_model(res, ast, m, rng, n_env, cap):
     polys = {a: poly_obs(m, a) for a in (True, False)}
     lv = leaves_of(m)
@@ -38,8 +40,8 @@ def oracle_model(res, ast, m, rng, n_env, cap):
         top = ref_eval_all(m, env, vals)
         # the library's own evaluation, on this same object, call after call
         try:
-            lib = {k: v.as_tuple() for k, v in m.evaluate_propositions(dict(env)).items()}
-            lib_top = m.evaluate(dict(env)).as_tuple()
+            lib = {k: v.as_tuple() for k, v in m.evaluate_propositions(typed_env(env)).items()}
+            lib_top = m.evaluate(typed_env(env)).as_tuple()
         except Exception as e:
             return {"op": "encode", "model": ast_json(ast), "active": True, "env": env, "problem": f"evaluate raised {type(e).__name__}: {str(e)[:120]}"}
         res.evaluations += 1
@@ -128,6 +130,36 @@ def run(res, tier, seed):
                                       f"({b(active)}, {dump(m, it)}, {lst(f'({it.s(c)}, ({z(lo)}, {z(hi)}))' for c, (lo, hi) in cols)}, {lst(lst(z(v) for v in r) for r in rows)})", (ast2, active)))
             except Exception as e:
                 res.count("lookalike_build_error:" + type(e).__name__)
+    # negatively signed nodes (written by negate() / Not / Imply or with sign=-1) directly over a leaf whose range is a whole
+    # machine integer range, evaluated at the two ends of that range
+    for _ in range(40 if tier == "quick" else 400):
+        lo, hi = rng.choice([(-32768, 32767), (-128, 127), (-32768, 0), (-128, 5)])
+        tn = rng.choice(["t", "tt"])        # typed_env decides by the id's length and the value which values are passed as narrow numpy scalars
+        t = {"k": "var", "id": tn, "b": [lo, hi]}
+        inner = {"k": "AtLeast", "v": rng.randint(-3, 6), "s": rng.choice([None, 1, -1]), "ch": [t] + ([{"k": "str", "id": "x"}] if rng.random() < 0.5 else []), "id": rng.choice(["A", None])}
+        ast = rng.choice([{"k": "Not", "ch": [inner], "id": None}, {"k": "Imply", "ch": [inner, {"k": "str", "id": "y"}], "id": rng.choice([None, "I"])},
+                          {"k": "AtLeast", "v": rng.randint(-3, 3), "s": -1, "ch": [t, {"k": "str", "id": "x"}], "id": "N"}, inner])
+        try:
+            m = build(ast)
+            if is_var(m) or m.errors() or not plain(m):
+                continue
+        except Exception:
+            continue
+        res.count("machine_range_leaf_under_negative_node")
+        polys_bad = None
+        for tv in (lo, hi, lo + 1):
+            env = {l.id: (tv if l.id == tn else rng.choice([0, 1])) for l in leaves_of(m)}
+            try:
+                got = m.evaluate(typed_env(env)).as_tuple(); want = ref_eval(m, env)
+            except Exception as e:
+                got, want = ("raised", type(e).__name__), None
+            res.evaluations += 1
+            if got != (want, want):
+                polys_bad = {"op": "encode", "model": ast_json(ast), "active": True, "env": env,
+                             "problem": f"the library evaluates the model to {got} at {env} where sign*sum>=value gives {want}: the extended assignment the property speaks of is not the one the polyhedron was built for"}
+                break
+        if polys_bad:
+            res.violation("oracle", f"{polys_bad['problem']} on {m!r}", polys_bad)
     # same-id twins that differ in one field (sign, value, a leaf's bounds) over leaves with symmetric bounds: validation has to
     # reject them (one id, two definitions); whenever it accepts one, it is a validated model and the property speaks about it
     for _ in range(80 if tier == "quick" else 800):
@@ -182,7 +214,7 @@ def replay(payload):
     vals = {}
     top = ref_eval_all(m, r["env"], vals)
     try:
-        lib_top = m.evaluate(dict(r["env"])).as_tuple()
+        lib_top = m.evaluate(typed_env(r["env"])).as_tuple()
     except Exception as e:
         print("evaluate raised", type(e).__name__, e); return 1
     if lib_top != (top, top):
